@@ -81,7 +81,9 @@ def finish (st : St) : Bool × Bool × List String :=
     | .ok _, none => (st.noparse && evs.isEmpty, if st.noparse then notes else notes ++ ["no changes line"])
     | .error _, _ => (false, notes ++ ["model handler raised KeyError"])
   -- correspondence 2: a rendered document is delivered as `events d`
-  let (c2, notes) := if st.hasDoc && evs != events doc then (false, notes ++ ["delivered SAX events differ from events(doc)"]) else (true, notes)
+  let (c2, notes) := if st.hasDoc && evs != events doc then (false, notes ++ ["delivered SAX events differ from events(doc)"])
+    else if st.hasDoc && !wfB doc then (false, notes ++ ["generated document is outside WF (hypothesis of instance0_master)"])
+    else (true, notes)
   -- correspondence 3: expansion (values afterwards, callbacks, raised)
   let mobs := observe st.vars (expand st.vars st.emptyValue evs)
   let (c3, notes) := if mobs == obs && endsOk then (true, notes) else
